@@ -15,9 +15,10 @@ LEVEL_NOTE = 'Trusted: the merge model; results compared as mappings, root type 
 RULE = ('random trees over a 5-letter key alphabet (forcing overlap), depth<=4, branching<=4, leaves None/int/str/list, dict/Dict/dictattr roots with mixed branch types, no empty '
         'branches; pairs (t,u) with overlapping branches, leaf-vs-branch conflicts and ignore lists; table<->tree with patterns of 1-4 wildcards (wildcard- and literal-terminated); '
         'non-trivial = (t,u) sharing >=1 branch at depth>=2, or a pattern with >=2 rows; distinct = canonical hash')
-ASSUMPTIONS = ['keys are strings without dots', 'empty branches are not generated (they vanish when flattened)', 'results are compared as mappings (a dict subclass equals a dict with the same items), root type checked separately',
+ASSUMPTIONS = ['keys containing dots are addressed through tuple / list paths only (a dotted string path is split by design)', 'empty branches are not generated (they vanish when flattened)', 'results are compared as mappings (a dict subclass equals a dict with the same items), root type checked separately',
                'with an ignore list, a leaf-vs-branch conflict is still resolved in u\'s favour (the branch is created before the ignored leaf is skipped), as the library does']
 KEYS = ['a', 'b', 'c', 'd', 'e']
+DOTTED = ['a', 'b', 'c', 'a.b', 'v1.0']     # string keys may contain dots: they are then addressed through tuple / list paths
 
 
 def required(tier):
@@ -61,6 +62,15 @@ def m_merge(t, u, ignore):
 
 def _ieq(a, b):
     return a is b or (type(a) is type(b) and a == b) or (isinstance(a, (int, float)) and isinstance(b, (int, float)) and not isinstance(a, bool) and not isinstance(b, bool) and a == b)
+
+
+def _all_keys(t):
+    out = []
+    for k, v in t.items():
+        out.append(k)
+        if is_branch(v):
+            out.extend(_all_keys(v))
+    return out
 
 
 def teq(a, b):
@@ -128,14 +138,15 @@ def run_tree(case, ctx):
               lambda: 'tree_keys=%r tree_values=%r items=%r' % (ks, vs, exp_items))
     for it in exp_items:
         path, leaf = list(it[:-1]), it[-1]
-        for p in (path, '.'.join(path), tuple(path)):
+        dotted = any('.' in k for k in path) or any('.' in k for k in _all_keys(mt))
+        for p in ((path, tuple(path)) if dotted else (path, '.'.join(path), tuple(path))):
             st, got = ctx.call(tree_getitem, t, p)
             if not ctx.check('getitem_per_path', st == 'ok' and (got is leaf or same(got, leaf)), lambda: 'tree_getitem(t, %r) = %s %r expected %r' % (p, st, got, leaf)):
                 return
-        st, got = ctx.call(tree_get, t, '.'.join(path))
+        st, got = ctx.call(tree_get, t, path if dotted else '.'.join(path))
         ctx.check('getitem_per_path', st == 'ok' and same(got, leaf), lambda: 'tree_get(t, %r) = %r' % (path, got))
     ctx.check('operands_unmodified_deep', idsnap_same(idsnap(t), s0), lambda: 'flatten/getitem modified t')
-    if exp_items and not case.get('alias'):
+    if exp_items and not case.get('alias') and not any('.' in k for k in _all_keys(mt)):
         # tree_setitem on an existing leaf path of a private copy: exactly that leaf changes
         from pyg_base._dict import tree_setitem
         import copy as _copy
@@ -224,11 +235,13 @@ def leaf(rng):
     return rng.choice([None, 0, 1, 2, 'x', 'y', '', [1, 2], [], ['x'], 0.0])
 
 
-def gen_tree(rng, depth, root):
+def gen_tree(rng, depth, root, keys=None):
+    keys = keys or KEYS
+
     def node(d, tp):
         n = rng.randint(1, 4 if d < 3 else 2)
         body = {}
-        for k in rng.sample(KEYS, n):
+        for k in rng.sample(keys, n):
             if d < depth and rng.random() < 0.5:
                 body[k] = node(d + 1, tp if rng.random() < 0.7 else rng.choice(['dict', 'Dict', 'dictattr']))
             else:
@@ -262,13 +275,14 @@ def gen_case(rng):
             rows.append(r)
         return {'kind': 'table', 'pattern': '/'.join(segs), 'rows': rows, 'as_dictable': rng.random() < 0.5}
     root = rng.choice(['dict', 'dict', 'Dict', 'dictattr'])
-    case = {'kind': 'tree', 't': gen_tree(rng, rng.randint(1, 4), root)}
+    keys = DOTTED if rng.random() < 0.2 else KEYS
+    case = {'kind': 'tree', 't': gen_tree(rng, rng.randint(1, 4), root, keys)}
     if rng.random() < 0.25:
         case['alias'] = [rng.choice(KEYS), rng.choice(KEYS + ['f'])]
         if case['alias'][0] == case['alias'][1]:
             del case['alias']
     if rng.random() < 0.8:
-        case['u'] = gen_tree(rng, rng.randint(1, 4), rng.choice(['dict', 'dict', 'Dict', 'dictattr']))
+        case['u'] = gen_tree(rng, rng.randint(1, 4), rng.choice(['dict', 'dict', 'Dict', 'dictattr']), keys)
         if rng.random() < 0.35:
             case['ignore'] = rng.choice([[None], [None, 0], [0, ''], [None, 'x', 1], ['y']])
     return case
